@@ -1070,6 +1070,18 @@ def last_data_column_contract():
             return Conj([("cells-behind-are-empty", z3.And(behind, *frame))])
         return f
 
+    def inv_cells_forward(names, row_name):
+        # the cells of one row walked front to back: the candidate only grows, and no visited cell at or right of it has data
+        def f(lc):
+            row = lc.entry.lookup(row_name)
+            if not isinstance(row, VSeq):
+                return Conj([("cells-behind-are-empty", z3.BoolVal(False))])
+            j = z3.Int("j!ldw")
+            parts = [z3.And(t >= e, z3.ForAll([j], z3.Implies(z3.And(j >= t, j >= 0, j < lc.i, j < row.length), z3.Not(CELL_NE(row.elem(j).t)))))
+                     for _v, t, e in ints(lc, names) if e is not None]
+            return Conj([("cells-behind-are-empty", z3.And(*parts) if parts else z3.BoolVal(True))])
+        return f
+
     c_ = FnContract(
         target=f"{XLSX}::_find_last_data_column",
         params=[("rows", p_rows())],
@@ -1089,6 +1101,9 @@ def last_data_column_contract():
         sp = None
         if iterates(fnode, node.iter, ("name", "rows")):
             sp = with_counters(LoopSpec(inv=inv_rows(names), label="rows"), node)
+        elif [n for n in ast.walk(node.iter) if isinstance(n, ast.Name) and n.id != "rows" and iterates(fnode, node.iter, ("name", n.id))]:
+            row_name = [n.id for n in ast.walk(node.iter) if isinstance(n, ast.Name) and n.id != "rows" and iterates(fnode, node.iter, ("name", n.id))][0]
+            sp = with_counters(LoopSpec(inv=inv_cells_forward(names, row_name), label="cells"), node)
         elif isinstance(node.iter, ast.Call) and ast.unparse(node.iter.func) == "range":
             # the cells of ONE row, walked by index from the back: the row is the sequence whose len() bounds the range
             lens = [a.args[0].id for a in ast.walk(node.iter) if isinstance(a, ast.Call) and isinstance(a.func, ast.Name) and a.func.id == "len"
